@@ -38,7 +38,7 @@ BUDGET_S = {"quick": 240, "thorough": 3000}
 
 def cases(seed, tier):
     rng = random.Random(f"C10:{seed}")
-    n = 260 if tier == "quick" else 16000
+    n = 700 if tier == "quick" else 16000
     out = []
     for i in range(n):
         r = rng.random()
@@ -52,6 +52,11 @@ def cases(seed, tier):
         else:
             d = gen.scenario(rng, sched="sorted", kinds=("FR",), noise_p=0.0, constraint_free_p=0.1, nmax=7,
                              seed=rng.randrange(1 << 20))
+            cons_ = d["network"]["constraints"]
+            if cons_ and rng.random() < 0.35 and not any(c_["limit"] == float("inf") for c_ in cons_):
+                # a monitoring-only constraint (limit inf) registered FIRST, ahead of the constraints that bind
+                ids_ = [s_["id"] for s_ in d["network"]["stations"]]
+                cons_.insert(0, {"name": "monitor0", "coeffs": {i_: 1 for i_ in rng.sample(ids_, rng.randint(1, len(ids_)))}, "limit": float("inf")})
             # spread arrivals / estimated departures so that most runs are tie-free
             used_a, used_e = set(), set()
             for s in sorted(d["sessions"], key=lambda s: (s["station"], s["arrival"])):
